@@ -221,6 +221,7 @@ def base_env():
             env[n] = getattr(math, n)
     env["ln"] = math.log
     env["MetaData"] = lambda src, md: src
+    env["ResultTTree"] = lambda src, names, tree, fname: src
     return env
 
 
